@@ -46,7 +46,7 @@ EXPECTED_PROBES = ("write_during_other_threads_slow_write", "set_message_while_s
                    "exit_while_spinner_sleeps", "line_granularity", "plain_auto", "manual_throttled")
 
 _pi = None
-_last = {"choices": None, "key": None}
+_last = {"choices": None, "key": None, "sets": None}
 
 
 def setup():
@@ -114,6 +114,33 @@ def gen(S, tier):
         "schedule": None,
     })
     return sc
+
+
+def sweep(sc, tier):
+    """Thorough tier, small scripts: systematic supplement to the seeded search - every schedule
+    that differs from the non-pre-emptive baseline by one pre-emption, and by two pre-emptions that
+    lie close together.  A schedule is a replayable choice list: baseline prefix + the other thread,
+    then 'keep running the current thread'.  (The deciding step stays the seeded search.)"""
+    if tier != "thorough" or sc["class"] != "auto" or len(sc["body"]) > 3 or sc["second"]:
+        return []
+    if sc["sched_seed"] % 40 != 0:
+        return []
+    out = []
+
+    def explore(prefix, start, depth):
+        base = dict(sc, schedule=list(prefix), granularity="seam")
+        execute(base)
+        choices, sets = list(_last["choices"] or []), list(_last["sets"] or [])
+        for i in range(start, min(len(choices), start + (200 if depth == 0 else 25))):
+            for alt in sets[i]:
+                if alt != choices[i] and len(out) < 1500:
+                    sched = choices[:i] + [alt]
+                    out.append(dict(sc, schedule=sched, granularity="seam"))
+                    if depth == 0:
+                        explore(sched, i + 1, 1)
+
+    explore([], 0, 0)
+    return out
 
 
 def simplify(sc):
@@ -380,6 +407,7 @@ def _auto(sc, res, clock, log):
         if t.exc is not None:
             res.violate("spinner_died", type(t.exc).__name__, "thread %s died with %r" % (t.name, t.exc))
     _last["choices"] = list(sched.choices)
+    _last["sets"] = [list(x) for x in sched.choice_sets]
     _last["key"] = _key(sc)
     res.steps = sched.steps
     res.probes["context_switches"] = res.probes.get("context_switches", 0) + sched.switches
